@@ -191,9 +191,21 @@ def mk_tm(taa):
     return sut(L().tm, np.array(taa, dtype=float))
 
 
+def _d(case):
+    """The case's six numbers; whole numbers when the case says the data are typed in as integers."""
+    d = np.asarray(case["d"], dtype=float)
+    return np.round(d) if case.get("whole") else d
+
+
+_WHOLE = [False]
+
+
 def mk(kind, data, taa, dshape="6"):
-    """Build the library object from copies of the inputs (constructor forms: (6,) and (6,1) data)."""
+    """Build the library object from copies of the inputs (constructor forms: (6,) and (6,1) data; integer-typed
+    arrays when the case says the data are whole numbers typed in as such)."""
     d = np.array(data, dtype=float).reshape((6, 1) if dshape == "61" else (6,))
+    if _WHOLE[0] and np.array_equal(d, np.round(d)):
+        d = d.astype(np.int64)
     f = mk_tm(taa) if taa is not None else None
     l = L()
     if kind == "wrench":
@@ -250,8 +262,14 @@ def apply_hop(x, kind, via, cur_taa, new_taa):
 def walk(ctx, case, names, vias, bud, idx, check_each=True):
     """Build the object in frame A and lead it through the frames `names`; after every hop compare
     with the oracle (from the ORIGINAL data, never from the library's intermediate) and the recorded frame."""
-    kind, d, fr = case["kind"], case["d"], case["fr"]
-    x = mk(kind, d, fr["A"], case["dshape"])
+    kind, d, fr = case["kind"], _d(case), case["fr"]
+    _WHOLE[0] = bool(case.get("whole"))
+    if _WHOLE[0]:
+        ctx.label("data integer-typed")
+    try:
+        x = mk(kind, d, fr["A"], case["dshape"])
+    finally:
+        _WHOLE[0] = False
     path = [idx["A"]]
     cur = "A"
     for k, nm in enumerate(names):
@@ -343,7 +361,7 @@ def c_frame_history(case, ctx):
 
 def c_frame_oracle(case, ctx):
     """One frame change equals Ad(T_ba) S (Screw/Twist) resp. Ad(T_ab)^T F (Wrench); getters agree."""
-    fr, kind, d = case["fr"], case["kind"], case["d"]
+    fr, kind, d = case["fr"], case["kind"], _d(case)
     ctx.label(kind)
     bud = Budget(ctx, [fr["A"], fr["B"]])
     frames_nt(ctx, fr, ["A", "B"], d)
@@ -358,7 +376,7 @@ def c_frame_oracle(case, ctx):
 
 def c_frame_roundtrip(case, ctx):
     """A->B->A (and A->B->C->A) gives back the original numbers and records A."""
-    fr, kind, d = case["fr"], case["kind"], case["d"]
+    fr, kind, d = case["fr"], case["kind"], _d(case)
     ctx.label(kind)
     names = ["B", "A"] if case["short"] else ["B", "C", "A"]
     used = ["A", "B"] if case["short"] else ["A", "B", "C"]
@@ -375,7 +393,7 @@ def c_frame_roundtrip(case, ctx):
 
 def c_frame_composition(case, ctx):
     """A->B->C equals A->C (library against library), and both equal the oracle."""
-    fr, kind, d = case["fr"], case["kind"], case["d"]
+    fr, kind, d = case["fr"], case["kind"], _d(case)
     ctx.label(kind)
     bud = Budget(ctx, [fr["A"], fr["B"], fr["C"]])
     frames_nt(ctx, fr, ["A", "B", "C"], d)
@@ -390,7 +408,7 @@ def c_frame_composition(case, ctx):
 def c_frame_recorded(case, ctx):
     """Along an arbitrary walk through A,B,C (repeats allowed) the object always records the frame it was
     last expressed in, and its numbers are the oracle's for that frame."""
-    fr, kind, d = case["fr"], case["kind"], case["d"]
+    fr, kind, d = case["fr"], case["kind"], _d(case)
     ctx.label(kind)
     names = [n for n in case["walk"]]
     ctx.label("hops %d" % len(names))
@@ -404,7 +422,7 @@ def c_explicit_old(case, ctx):
     """changeFrame(new, old) / transformWrenchFrame(w, old, new) on an object whose recorded frame is not `old`
     (the caller states the frame the numbers are in, as tests/test_general_fsr.py does): numbers move old->new
     and the object records `new`."""
-    fr, kind, d = case["fr"], case["kind"], case["d"]
+    fr, kind, d = case["fr"], case["kind"], _d(case)
     ctx.label(kind)
     rec = case["recorded"]
     ctx.label("recorded " + rec)
@@ -1012,7 +1030,8 @@ K_I = st.one_of(st.integers(1, 10), st.integers(-10, -1), st.integers(1, 1000))
 
 
 def _frame_case(**extra):
-    base = {"kind": KINDS, "dshape": DSHAPE, "fr": frame_triples(), "d": six_vectors()}
+    base = {"kind": KINDS, "dshape": DSHAPE, "fr": frame_triples(), "d": six_vectors(),
+            "whole": st.sampled_from([False, False, False, True])}
     base.update(extra)
     return st.fixed_dictionaries(base)
 
